@@ -185,6 +185,9 @@ func (s *faultSink) Write(p []byte) (int, error) {
 			return len(p) / 2, fmt.Errorf("short-%s-%d", s.name, i)
 		case "zero":
 			return 0, fmt.Errorf("zero-%s-%d", s.name, i)
+		case "closed":
+			// what a file that was closed under the logger reports: an error like any other
+			return 0, &os.PathError{Op: "write", Path: "sink-" + s.name, Err: os.ErrClosed}
 		case "nilerr":
 			return 0, (*ptrErr)(nil) // an error value whose Error method panics (nil receiver)
 		case "panicerr":
@@ -213,6 +216,8 @@ func (s *faultSink) failsAt(i int) (string, bool) {
 			return fmt.Sprintf("short-%s-%d", s.name, i), true
 		case "zero":
 			return fmt.Sprintf("zero-%s-%d", s.name, i), true
+		case "closed":
+			return "write sink-" + s.name + ": file already closed", true
 		case "nilerr", "panicerr":
 			return "", true // must be reported, but the text of the report is whatever fmt makes of a panicking Error method
 		}
@@ -450,7 +455,7 @@ func c10Check(t interface {
 	}
 }
 
-var c10Outcomes = []string{"ok", "ok", "ok", "err", "err", "short", "short", "zero", "zero", "nilerr", "panicerr"}
+var c10Outcomes = []string{"ok", "ok", "ok", "err", "err", "short", "short", "zero", "zero", "nilerr", "panicerr", "closed"}
 
 func propC10Sinks(t *rapid.T) {
 	nCores := rapid.IntRange(1, 4).Draw(t, "nCores")
